@@ -54,7 +54,9 @@ def gen_case(r):
     for _ in range(r.between(4, 30)):
         c = r.pct()
         di, wrap = r.below(3), r.coin(35)
-        if c < 15:
+        if c < 4:
+            prog.append(("filterp", r.below(nrules), di))
+        elif c < 15:
             prog.append(("filter", r.below(nrules), di, wrap))
         elif c < 30:
             prog.append(("get", r.below(nrules), di, wrap, r.coin(), r.choice([None, None, "dtype", "first", "last", "all"])))
@@ -94,6 +96,24 @@ class World:
             _, ri, di, wrap = op
             res = self.rules[ri].condition.filter(self.wrapped[di] if wrap else self.docs[di])
             return ("filter", list(res.result), [exact(x) for x in res.data], list(res.failure_indices))
+        if kind == "filterp":
+            # the rarely used form filter(items, data_has_paths=True) on a list of (value, path)
+            # pairs that the caller keeps (and passes again later)
+            _, ri, di = op
+            if not hasattr(self, "pairs"):
+                self.pairs = {}
+            if (ri, di) not in self.pairs:
+                got = self.rules[ri].path.get_data(self.docs[di], return_paths=True)
+                if got is None:
+                    got = []
+                elif isinstance(got, tuple):
+                    got = [got]
+                self.pairs[(ri, di)] = list(got)
+            pairs = self.pairs[(ri, di)]
+            if not pairs:
+                return ("filterp", None)
+            res = self.rules[ri].condition.filter(pairs, data_has_paths=True, source_data=ns.da.Data(self.docs[di]))
+            return ("filterp", list(res.result), exact(pairs))
         if kind == "get":
             _, ri, di, wrap, rp, mod = op
             path = self.rules[ri].path
@@ -211,7 +231,7 @@ def history(schemas, docs):
         if out.violations:
             break
         # classification
-        if kind in ("filter", "get", "dataget", "test"):
+        if kind in ("filter", "filterp", "get", "dataget", "test"):
             key = ("rule", op[1])
             is_cast = bool(W.rule_terms[op[1]].cast) and kind == "test"
         else:
@@ -276,6 +296,11 @@ def machine(seed, n, record):
         @rule(ri=idx, d=di, wrap=flag, rp=flag, mod=st.sampled_from([None, "dtype", "first", "last", "all"]))
         def get(self, ri, d, wrap, rp, mod):
             self.send(("get", ri % self.nrules, d, wrap, rp, mod))
+
+        @precondition(lambda self: getattr(self, "nrules", 0) > 0)
+        @rule(ri=idx, d=di)
+        def filter_pairs(self, ri, d):
+            self.send(("filterp", ri % self.nrules, d))
 
         @precondition(lambda self: getattr(self, "nrules", 0) > 0)
         @rule(ri=idx, d=di)
